@@ -55,8 +55,8 @@ DYNAMIC = {
     "C06": dict(profiles=["barrier", "metrics", "weak"], mode="od", tags=["C06", "C01", "C05"]),
     "C07": dict(profiles=["finalize"], mode="od", tags=["C07", "C01"]),
     "C08": dict(profiles=["protocol", "pacing", "finalize"], mode="sd", tags=["C08"]),
-    "C09": dict(profiles=["pacing", "protocol", "soak"], mode="sd", tags=["C09"]),
-    "C10": dict(profiles=["metrics", "pacing", "fault"], mode="sd", tags=["C10"], release_too=True),
+    "C09": dict(profiles=["pacing", "protocol", "soak"], mode="sd", tags=["C09"], extra=[("decimal", "odt")]),
+    "C10": dict(profiles=["metrics", "pacing", "fault"], mode="sd", tags=["C10"], release_too=True, extra=[("decimal", "odt")]),
     "C11": dict(profiles=["fault"], mode="od", tags=["C01", "C02", "C03", "C04", "C05", "C11"]),
     "C20": dict(profiles=["multi"], mode="od", tags=["C20", "C01", "C02", "C03", "C04", "C05"]),
 }
@@ -374,8 +374,19 @@ def run_dynamic(prop, cfg, tier, seed, exe, t0, time_budget):
     results = []
     with concurrent.futures.ThreadPoolExecutor(NCPU) as ex:
         futs = [ex.submit(run_chunk, exe, cfg["mode"], *j) for j in jobs]
+        # extra (profile, mode) pairs: e.g. decimal pacing compared tolerantly (`odt`)
+        xjobs = []
+        for profile, mode in cfg.get("extra", []):
+            chunk = max(1, T["count"] // 4 // max(1, per))
+            for k in range(per):
+                xjobs.append((mode, (profile, sub_seed(seed, profile, k), chunk, T["maxops"], f"{prop}.{profile}.{k}")))
+        xfuts = [(m, ex.submit(run_chunk, exe, m, *j)) for m, j in xjobs]
         for f in futs:
             results.append(f.result())
+        for m, f in xfuts:
+            r = f.result()
+            r["mode"] = m
+            results.append(r)
     return results
 
 
@@ -533,7 +544,7 @@ def main(argv):
             def pred(viol, dfs, crashed, v=v):
                 return any(x["property"] == v["property"] and re.sub(r"\d+", "N", x["what"])[:40] == re.sub(r"\d+", "N", v["what"])[:40] for x in viol)
 
-            small = shrink(hexe, cfg["mode"], ops, pred, f"{prop}.shrink") if ops else ops
+            small = shrink(hexe, r.get("mode", cfg["mode"]), ops, pred, f"{prop}.shrink") if ops else ops
             path = write_replay(prop, f"{v['sequence']}", [
                 f"property {prop}: monitor {v['property']} fired on the implementation's own trace",
                 f"what: {v['what']}", f"at: {v['op']} (op index {v['op_index']} of the unshrunk sequence)",
@@ -637,7 +648,7 @@ def main(argv):
                 def pred3(viol, dfs, crashed, d=d):
                     return any(diff_sig(x) == diff_sig(d) for x in dfs)
 
-                ops = shrink(exe, cfg["mode"], ops, pred3, f"{prop}.shrink", budget=200) if ops else ops
+                ops = shrink(exe, r.get("mode", cfg["mode"]), ops, pred3, f"{prop}.shrink", budget=200) if ops else ops
             path = write_replay(prop, "unproved", [f"property {prop} is no longer shown to hold:"] + broken + [
                 f"searched {searched} further sequences with the property monitors on: no failing input found",
                 "the sequence below (if any) is the shrunk sequence on which model and implementation disagree"], ops)
@@ -709,13 +720,21 @@ def do_replay(prop, path):
         return 2
     ops = [l.rstrip("\n") for l in open(path) if l.startswith("op ")]
     viol, diffs, crashed = replay_ops(exe, cfg["mode"], ops, f"{prop}.replay")
+    known, _fixed = known_findings()
+    known_keys = {(k["property"], k["key"]) for k in known}
+    fresh = []
     for v in viol:
+        if v.get("key") and (v["property"], v["key"]) in known_keys:
+            desc = next((k["what"] for k in known if (k["property"], k["key"]) == (v["property"], v["key"])), v["what"])
+            log(f"KNOWN-FINDING: property={v['property']} {v['key']}: {desc}")
+            continue
+        fresh.append(v)
         log(f"[monitor] {v['property']} @ {v['op']}: {v['what']}")
     for d in diffs:
         log(f"[model] DIFF section={d['section']} op={d['op']} impl={d['impl']} model={d['model']}")
     if crashed:
         log("[harness] process died while replaying")
-    bad = [v for v in viol] or diffs or crashed
+    bad = fresh or diffs or crashed
     if bad:
         print(f"VIOLATION property={prop} replay={path}")
         return 1
